@@ -22,7 +22,8 @@ fn main() {
         }
         "c05-child" => {
             let depth: usize = args.get(2).and_then(|s| s.parse().ok()).unwrap_or(16);
-            jmv::props::c05::child_main(args.get(1).map(|s| s.as_str()).unwrap_or("not"), depth);
+            let doc: usize = args.get(3).and_then(|s| s.parse().ok()).unwrap_or(0);
+            jmv::props::c05::child_main(args.get(1).map(|s| s.as_str()).unwrap_or("not"), depth, doc);
             std::process::exit(0);
         }
         "c17-serve" => {
